@@ -210,6 +210,8 @@ def _owner(src):
 
 
 class _Flat:
+    COUNTED = ("mut", "rec", "store", "other")      # the kinds of event that make an inlined callee count
+
     def __init__(self, api):
         self.api = api
         self.events = []
@@ -256,6 +258,10 @@ class _Flat:
     def emit(self, *ev):
         self.events.append(ev)
 
+    def loop_hook(self, cls, fn, st, env, guards, depth, stack, layerish):
+        """A subclass may take over a loop (return True); the default keeps a loop body a segment of its own."""
+        return False
+
     def flatten(self, cls, fn, env, guards, depth, stack, layerish):
         """env: name -> normal expression; layerish: set of local names known to denote API objects."""
         env = dict(env)
@@ -291,6 +297,8 @@ class _Flat:
                     guards = guards + [g]
                 continue
             if isinstance(st, (ast.For, ast.While)):
+                if self.loop_hook(cls, fn, st, env, guards, depth, stack, layerish):
+                    continue                                         # a subclass summarised the loop (extract_c14)
                 it = st.iter if isinstance(st, ast.For) else st.test
                 self.exprs(cls, fn, it, env, guards, depth, stack, layerish)
                 inner_layerish = set(layerish)
@@ -535,7 +543,7 @@ class _Flat:
             self.events = []
             self.flatten(target, callee, cenv, guards, depth + 1, stack + [key], clayer)
             got, self.events = self.events, saved
-            if any(e[0] in ("mut", "rec", "store", "other") for e in got):
+            if any(e[0] in self.COUNTED for e in got):
                 results.append((target, got))
         if not results:
             return
